@@ -191,6 +191,15 @@ func (g *Gun) Bind(aggr core.Aggregator, deps core.GunDeps) error {
 
 func (g *Gun) Shoot(am core.Ammo) {
 	customAmmo := am.(*ammo.Ammo)
+	if customAmmo.IsInvalid() {
+		// An entry the provider could not decode (continueonerror): the pooled ammo object still holds
+		// whatever an earlier entry left in it. Nothing may be sent: one failed sample, like the HTTP guns.
+		sample := netsample.Acquire("__EMPTY__")
+		sample.SetProtoCode(0)
+		g.Aggr.Report(sample)
+		g.GunDeps.Log.Warn("Invalid ammo", zap.Uint64("request", customAmmo.ID()))
+		return
+	}
 	g.shoot(customAmmo)
 }
 
